@@ -1,4 +1,5 @@
 import LitexProofs.Fhdl.StaticSound
+import LitexProofs.Fhdl.ModuleEquiv
 /-
   C01 — generated Verilog behaves exactly like the simulated FHDL design.
 
@@ -30,17 +31,15 @@ namespace Litex.C01
     then the printed text evaluates, under the Verilog rules, to the simulator's value modulo `2^W`. -/
 theorem printE_correct_partial (ρ : Env) (e : Expr) (W : Nat)
     (hW : selfWidth (printE e).1 ≤ W) (h : Fits ρ e W = true) :
-    evalV ρ W (selfSigned (printE e).1) (printE e).1 = tn W (evalF ρ e) := by
-  simp only [Fits, Bool.and_eq_true] at h
-  rw [evalV_ideal ρ _ W _ hW h.2, printE_ideal ρ e h.1]
+    evalV ρ W (selfSigned (printE e).1) (printE e).1 = tn W (evalF ρ e) :=
+  printE_correct ρ e W hW h
 
 /-- **Assignment theorem.**  `target.eq(e)` stores the same bits in the simulator and in the generated
     Verilog (`target <= text;` / `assign target = text;`), for a target of any width `lw`. -/
 theorem assign_correct_partial (ρ : Env) (e : Expr) (lw : Nat)
     (h : Fits ρ e (max lw (selfWidth (printE e).1)) = true) :
-    assignV ρ lw (printE e).1 = storeF ρ lw e := by
-  unfold assignV storeF
-  rw [printE_correct_partial ρ e _ (Nat.le_max_right _ _) h, tn_tn (Nat.le_max_left _ _)]
+    assignV ρ lw (printE e).1 = storeF ρ lw e :=
+  assign_correct ρ e lw h
 
 /-- **Verilog sizing theorem** (about the Verilog semantics alone): context-determined evaluation equals the
     exact integer value modulo `2^W` whenever no self-determined boundary loses information. -/
@@ -72,9 +71,89 @@ theorem assign_correct_static (e : Expr) (lw : Nat)
     ∀ ρ : Env, envOk ρ e = true → assignV ρ lw (printE e).1 = storeF ρ lw e :=
   fun ρ hρ => assign_correct_partial ρ e lw (staticallyFits_sound e _ h ρ hρ)
 
-/-! ### Non-vacuity -/
-
 def envL (l : List Int) : Env := fun i => l.getD i 0
+
+/-! ## Layer 2 — statements, `always` blocks
+
+  `Rel wd ρ m p` (LitexProofs/Fhdl/AssignMerge.lean): applying the scheduled Verilog non-blocking updates `p`
+  (oldest first, `applyPending`) to the bit patterns of the committed values `ρ` gives, for EVERY signal `i`
+  of declared width `wd i`, the bit pattern of the simulator's post-commit view (`modifications` over
+  `signal_values`, `readPost ρ m`).  It holds for the empty tables (`rel_nil`) and is what `commit` turns into
+  equal next states.  `wfSs wd ss`: the width annotation of every assignment-target signal node is the declared
+  width.  `distinctSs ss`: the keys of every `Case` are pairwise distinct (they are Python dict keys hashed by
+  value).  `fitsSs ρ ss`: every right-hand side / `If` condition / `Case` test of `ss` satisfies its side
+  condition under `ρ` (`fitsAssign`/`fitsCond`/`fitsCase`, LitexModel/Fhdl/FitsStmt.lean), and every target is a
+  signal, an in-range slice of a signal or a flat `Cat` of those. -/
+
+/-- **case_sorted_equiv.**  The printer emits the items of a `Case` sorted by key (then `default`); the
+    simulator walks the dictionary in insertion order.  With pairwise distinct keys both execute the same. -/
+theorem case_sorted_equiv (ρ : Env) (ss : Stmts) (hd : distinctSs ss) (m : Mods) :
+    execFs ρ (sortSs ss) m = execFs ρ ss m :=
+  execFs_sortSs ρ ss hd m
+
+/-- **assign_slices_merge.**  One assignment to a signal, to a slice of a signal, or to a flat `Cat` of those:
+    the simulator merges into the pending value read back with `postcommit=True`, Verilog queues a part-select
+    update; the correspondence `Rel` is preserved (so any sequence of partial assignments merges identically).
+    `x`, `y` are the value assigned by the simulator and by Verilog; they need only agree on the target's bits. -/
+theorem assign_slices_merge (wd : Nat → Nat) (ρ : Env) (m : Mods) (p : Pending) (h : Rel wd ρ m p)
+    (l : Expr) (hl : targetOk l = true) (hw : wfTarget wd l) (x y : Int)
+    (hxy : tn (bitsSign l).1 x = tn (bitsSign l).1 y) :
+    Rel wd ρ (assignT ρ l x m) (nbaAssign (printE l).1 y p) :=
+  rel_target h l hl hw x y hxy
+
+/-- **Block theorem** (`_generate_node`): executing statements `ss` in the simulator and the printed text
+    (`printStmts ss`: assignments as `<=`, `If`, `Case` sorted + `default`) under the Verilog rules preserves
+    `Rel` — for every statement list, every valuation and every starting pair of tables. -/
+theorem block_equiv_partial (wd : Nat → Nat) (ρ : Env) (ss : Stmts) (m : Mods) (p : Pending)
+    (h : Rel wd ρ m p) (hd : distinctSs ss) (hf : fitsSs ρ ss = true) (hw : wfSs wd ss) :
+    Rel wd ρ (execFs ρ ss m) (execVs ρ (printStmts ss) p) :=
+  rel_printStmts wd ρ ss m p h hd hf hw
+
+/-- **comb_block_equiv.**  A comb group that is not a single whole-signal assignment is printed as
+    `always @(*) begin <target <= reset;…> <statements> end`; the simulator prepends the same defaults. -/
+theorem comb_block_equiv_partial (sigs : Array SigDecl) (ρ : Env) (g : CombGroup) (m : Mods) (p : Pending)
+    (body : VStmts) (hprint : printCombGroup sigs g = .comb body)
+    (h : Rel (wdOf sigs) ρ m p) (hr : resetsOk sigs (sortByName sigs g.targets) = true)
+    (hd : distinctSs g.stmts) (hf : fitsSs ρ g.stmts = true) (hw : wfSs (wdOf sigs) g.stmts) :
+    Rel (wdOf sigs) ρ
+      (execFs ρ g.stmts (execFs ρ (resetStmts sigs (sortByName sigs g.targets)) m))
+      (execVs ρ body p) :=
+  comb_block_equiv sigs ρ g m p body hprint h hr hd hf hw
+
+/-- **wire_vs_always.**  A group made of one whole-signal assignment is printed as `assign sig = rhs;`; the
+    simulator's default-then-assign leaves the same view as the continuous assignment. -/
+theorem wire_vs_always_partial (sigs : Array SigDecl) (ρ : Env) (i w : Nat) (s : Bool) (r : Expr) (m : Mods)
+    (p : Pending) (h : Rel (wdOf sigs) ρ m p) (hwd : w = wdOf sigs i) (hw0 : 0 < w)
+    (hf : Fits ρ r (max w (selfWidth (printE r).1)) = true) :
+    let g : CombGroup := { targets := [i], stmts := .cons (.assign (.sig i w s) r) .nil }
+    printCombGroup sigs g = .assign (.id i w s) (printE r).1 ∧
+    Rel (wdOf sigs) ρ
+      (execFs ρ g.stmts (execFs ρ (resetStmts sigs (sortByName sigs g.targets)) m))
+      (nbaAssign (.id i w s) (assignV ρ w (printE r).1) p) :=
+  wire_group_equiv sigs ρ i w s r m p h hwd hw0 hf
+
+/-- **sync_block_equiv.**  One clock domain (after `insert_resets`) printed as `always @(posedge clk)`. -/
+theorem sync_block_equiv_partial (wd : Nat → Nat) (ρ : Env) (d : SyncDom) (m : Mods) (p : Pending)
+    (h : Rel wd ρ m p) (hd : distinctSs d.stmts) (hf : fitsSs ρ d.stmts = true) (hw : wfSs wd d.stmts) :
+    Rel wd ρ (execFs ρ d.stmts m) (execVs ρ (printStmts d.stmts) p) :=
+  sync_block_equiv wd ρ d m p h hd hf hw
+
+/-- Non-vacuity of the block theorem: `if (a[3]) r[7:4] <= b; case (a[1:0]) 2: r <= r + 1; 0: r[0] <= 1`
+    (items unsorted) satisfies all hypotheses in a concrete state, and both sides really schedule updates. -/
+example :
+    let a : Expr := .sig 0 4 false
+    let b : Expr := .sig 1 4 false
+    let r : Expr := .sig 2 8 false
+    let ss : Stmts :=
+      .cons (.ite (.slice a 3 4) (.cons (.assign (.slice r 4 8) b) .nil) .nil)
+      (.cons (.case (.slice a 0 2)
+          (.cons 2 2 false (.cons (.assign r (.op2 .add r (.const 1 1 false))) .nil)
+          (.cons 0 1 false (.cons (.assign (.slice r 0 1) (.const 1 1 false)) .nil) .nil)) false .nil) .nil)
+    let ρ := envL [10, 5, 200]
+    fitsSs ρ ss = true ∧ execFs ρ ss [] = [(2, 201), (2, 88)] ∧
+    execVs ρ (printStmts ss) [] = [⟨2, 0, 8, 201⟩, ⟨2, 4, 4, 5⟩] := by decide
+
+/-! ### Non-vacuity (layer 1) -/
 
 /-- `y[8] = (a & ~b) + (c >> 1)` with a,b,c 8-bit unsigned fits statically (so for all inputs). -/
 example : staticallyFits
